@@ -376,6 +376,44 @@ fn check_geometry(v: &mut Verdict, fam: &Family, var: &Variant, out: &Outcome, c
         }
         _ => v.require(geo.leading_edge.is_none() || geo.trailing_edge.is_none(), "airfoil.faces_found", || format!("{tag}: le={le:?} te={te:?}")),
     }
+    // 5. gauge thicknesses: both gauge points lie on the section, one on each face; a radius gauge is
+    // measured from the leading edge point (positive) or from the trailing edge point (negative); a camber
+    // gauge crosses the camber curve at the requested length from the same end
+    if let (Some(l_e), Some(t_e), Some(u), Some(l)) = (&geo.leading_edge, &geo.trailing_edge, &geo.upper, &geo.lower) {
+        use engeom::airfoil::AfGage;
+        let on = 1e-6 * fam.len + tol_i;
+        let rr = fam.len * (0.25 + 0.35 * (st.len() % 7) as f64 / 7.0);
+        for signed in [rr, -rr] {
+            if let Ok(g) = geo.get_thickness(AfGage::Radius(signed)) {
+                let e = if signed > 0.0 { l_e.point } else { t_e.point };
+                let which = if signed > 0.0 { "leading" } else { "trailing" };
+                v.require(((g.a - e).norm() - rr).abs() <= on && ((g.b - e).norm() - rr).abs() <= on, "airfoil.radius_gauge_is_measured_from_its_edge_point",
+                    || format!("{tag}: Radius({signed}): points are {} and {} from the {which} edge point", (g.a - e).norm(), (g.b - e).norm()));
+                v.require(sec.dist_to_point(&g.a) <= on && sec.dist_to_point(&g.b) <= on, "airfoil.gauge_points_on_section", || format!("{tag}: Radius({signed})"));
+                let faces_ok = (u.dist_to_point(&g.a) <= on && l.dist_to_point(&g.b) <= on) || (u.dist_to_point(&g.b) <= on && l.dist_to_point(&g.a) <= on);
+                v.require(faces_ok, "airfoil.gauge_points_one_on_each_face", || format!("{tag}: Radius({signed})"));
+            }
+        }
+        let cl = geo.camber.length();
+        let x = cl * (0.3 + 0.4 * (st.len() % 5) as f64 / 5.0);
+        if let (Ok(g1), Ok(g2)) = (geo.get_thickness(AfGage::OnCamber(x)), geo.get_thickness(AfGage::OnCamber(x - cl))) {
+            v.require((g1.a - g2.a).norm() <= 1e-7 * fam.len && (g1.b - g2.b).norm() <= 1e-7 * fam.len, "airfoil.negative_camber_gauge_counts_from_the_trailing_end", || format!("{tag}: OnCamber({x}) vs OnCamber({})", x - cl));
+            v.require(sec.dist_to_point(&g1.a) <= on && sec.dist_to_point(&g1.b) <= on, "airfoil.gauge_points_on_section", || format!("{tag}: OnCamber({x})"));
+            if let Some(cp) = geo.camber.at_length(x) {
+                // the gauge segment passes through the camber point, perpendicular to the camber there
+                let d = (g1.b - g1.a).normalize();
+                let off = (cp.point() - g1.a) - d * d.dot(&(cp.point() - g1.a));
+                v.require(off.norm() <= 1e-6 * fam.len, "airfoil.camber_gauge_passes_through_the_camber_point", || format!("{tag}: {:e}", off.norm()));
+                v.require(d.dot(&cp.direction().into_inner()).abs() <= 1e-6, "airfoil.camber_gauge_is_normal_to_the_camber", || format!("{tag}"));
+                // and measures about twice the local radius of the known law
+                let s_true = fam.foot(&(inv * cp.point())).1;
+                if s_true > 0.1 * fam.len && s_true < 0.9 * fam.len {
+                    let want = 2.0 * fam.radius(s_true);
+                    v.require(((g1.b - g1.a).norm() - want).abs() <= 0.08 * want + disc, "airfoil.gauge_thickness_recovered", || format!("{tag}: {} vs {want}", (g1.b - g1.a).norm()));
+                }
+            }
+        }
+    }
 }
 
 fn sections(rng: &mut Rng) {
